@@ -210,3 +210,16 @@ func trunc(s string, n int) string {
 	}
 	return s
 }
+
+// Perm returns a permutation of 0..n-1 (Fisher–Yates).
+func (r *Rand) Perm(n int) []int {
+	p := make([]int, n)
+	for i := range p {
+		p[i] = i
+	}
+	for i := n - 1; i > 0; i-- {
+		j := r.Intn(i + 1)
+		p[i], p[j] = p[j], p[i]
+	}
+	return p
+}
